@@ -449,8 +449,29 @@ def shard(name, inplace, clear_at=None):
     return tally
 
 
+def ring_shard(N, shape, storage):
+    """a bare RecordTensor checkpointed from EVERY reachable ring state (not only the states a simulation run visits: pointer moved by
+    incr/decr/align, slots overwritten by range writes, a pop just before): the explorer and list model of C01 with one more operation,
+    'roundtrip' = torch.save(state_dict) -> load_state_dict into a freshly constructed record that has already been pushed to on
+    other data; the loaded record must show the model's pointer and contents (and the source is scribbled afterwards)."""
+    from checks.c01_record import RingSystem
+    from mc.explore import explore
+    tally = Tally()
+    sysm = RingSystem(N, tuple(shape), storage, "float32", False)
+    sysm.lifecycle = True
+
+    def nontrivial(st, op):
+        return ("ring", N, tuple(shape), storage, st.p, tuple(map(tuple, st.M))) if op[0] == "roundtrip" else None
+
+    explore(sysm, tally, max_states=None if N <= 2 else 400, nontrivial=nontrivial)
+    tally.add("evaluations", len(tally.sets.get("nontrivial", ())))
+    tally.mark("activity", ("ring", (N, tuple(shape), storage), True))
+    return tally
+
+
 def run(rep):
-    jobs = []
+    jobs = [(ring_shard, (N, shape, storage)) for N in ((1, 2, 3) if rep.tier == "quick" else (1, 2, 3, 4))
+            for shape in ((), (2,)) for storage in ("zeros", "param")]
     for name in (ZOO + ZOO_EXTRA if rep.tier != "quick" else ZOO + ZOO_EXTRA[:1]):
         for inplace in (False, True):
             if name == "classifier" and inplace:
